@@ -291,5 +291,19 @@ def replay(rec) -> int:
             self.f.append(r)
     c = _Ck()
     tc.validate_traces(c, [(rec["trace"], {})], "replay")
-    print("trace spec verdict:", "rejected" if c.f else "accepted")
+    print("recorded trace, trace spec verdict:", "rejected" if c.f else "accepted")
+    if "prog" in rec and "decisions" in rec:
+        # the same program under the same scheduling decisions on the tree under test (VERIF_REPO)
+        tr = tc.rerun_schedule(rec["prog"], rec.get("variant", "own"), rec["decisions"])
+        c2 = _Ck()
+        tc.validate_traces(c2, [(tr, {})], "replay")
+        print("re-executed under the recorded schedule:", json.dumps(tr))
+        print("re-executed trace, trace spec verdict:", "rejected" if c2.f else "accepted")
+        return 1 if c2.f else 0
+    if "scn" in rec and "sched" in rec:
+        tr = tc.perform_solo(rec["scn"], rec["sched"], trace=True)["trace"]
+        c2 = _Ck()
+        tc.validate_traces(c2, [(tr, {})], "replay")
+        print("re-executed trace, trace spec verdict:", "rejected" if c2.f else "accepted")
+        return 1 if c2.f else 0
     return 1 if c.f else 0
